@@ -5,7 +5,7 @@
    leaf order a permutation, initial callback pairs each exactly once.  The theorems below are about
    the Gallina transcription (Model/Linkage.v) and about the reference functions. *)
 From Coq Require Import Permutation.
-From HpoV Require Import Model.Base Model.Group Model.Linkage Run.C17 Proofs.C17P Proofs.C17R Proofs.LinkageP Proofs.DendroP.
+From HpoV Require Import Model.Base Model.Group Model.Linkage Run.C17 Proofs.C17P Proofs.C17R Proofs.LinkageP Proofs.DendroP Proofs.LinkageTotalP.
 
 (* utils::Combinations, for EVERY fuel: what the iterator state machine yields from state
    (idx1, idx2) is the rest of row idx1 followed by all later rows, live entries only *)
@@ -115,6 +115,15 @@ Theorem C17_run_returns_a_dendrogram : forall (F : Type) flt fgt mean dist mt se
   ((2 <= n)%nat -> (exists c, nth_error cl (n - 2) = Some c /\ c_size F c = n) /\ Permutation (indicies F sf) (seq 0 n)).
 Proof. exact linkage_dendrogram. Qed.
 
+(* TOTALITY: all four linkage methods RETURN on every non-empty list of sets, for every number type and
+   distance function — the sizes of merged nodes are known, indices are in range, every distance a
+   method combines is present, the callback's values suffice, the Combinations iterator ends within
+   its fuel (none of the expect() calls of linkage.rs panics).  With C17_clustering_run and
+   C17_run_returns_a_dendrogram: clustering n >= 1 sets YIELDS exactly n-1 merges forming a dendrogram *)
+Theorem C17_clustering_returns : forall (F : Type) flt fgt mean dist mt sets, (1 <= length sets)%nat ->
+  exists sf, linkage F flt fgt mean dist mt sets = Ok sf.
+Proof. exact linkage_returns. Qed.
+
 Print Assumptions C17_combinations_state_machine.
 Print Assumptions C17_initial_pairs_each_once.
 Print Assumptions C17_closest_is_minimum.
@@ -126,3 +135,4 @@ Print Assumptions C17_distances_follow_method.
 Print Assumptions C17_union_distances.
 Print Assumptions C17_initial_matrix.
 Print Assumptions C17_run_returns_a_dendrogram.
+Print Assumptions C17_clustering_returns.
